@@ -8,6 +8,8 @@ SPEC = ROOT + '/spec'
 HARN = ROOT + '/harness'
 WORK = ROOT + '/work'
 RVH = HARN + '/target/release/rvh'
+# the real command-line tool: built from /repo by the harness crate, or given (a build of a scratch worktree, see lib/wtrun.py)
+REAL_BIN = os.environ.get('RULER_REAL_BIN', HARN + '/target/release/ruler_real')
 NOISE = re.compile(r'^(The field|named|In TLA|Therefore|.*field in the record|\s*$|Parsing|Semantic|Linting|line [0-9]|Picked up)')
 
 class ToolError(Exception):
@@ -24,7 +26,7 @@ def sh(cmd, timeout=3600, cwd=None, env=None):
 
 def build_harness(real=False):
     t0 = time.time()
-    bins = '--bin rvh' + (' --bin ruler_real' if real else '')
+    bins = '--bin rvh' + (' --bin ruler_real' if real and 'RULER_REAL_BIN' not in os.environ else '')
     env = {'CARGO_NET_OFFLINE': 'true'}
     rc, out = sh('cargo build --release --offline --features verif ' + bins, cwd=HARN, timeout=3000, env=env)
     if rc != 0:
